@@ -43,7 +43,9 @@ func NewDynamicMembership(bus EventBus.Bus) Membership {
 		bus:      bus,
 	}
 
-	err := bus.SubscribeAsync(helpers.MembershipChangedBusEventName, dm.membershipChangedListener, true)
+	// synchronous on purpose: the new info must be in place before the (asynchronous) listeners that
+	// react to the same event - the stream's rebalance - ask for it
+	err := bus.Subscribe(helpers.MembershipChangedBusEventName, dm.membershipChangedListener)
 	if err != nil {
 		logger.Log.Error("error while subscribe membership changed event, err: %v", err)
 		panic(err)
